@@ -256,6 +256,40 @@ def mk_wcs(w):
     return wcs
 
 
+def latfirst(w):
+    """is the FIRST world axis of this WCS the latitude (CTYPE = DEC--xxx, RA---xxx or GLAT, GLON)?"""
+    return w['ctype'][0][:4] in ('DEC-', 'GLAT')
+
+
+def cref(w, k):
+    """index of the CRPIX entry that the PixCoord component k ('x'/'y') runs along (see wcs_fwd)."""
+    j = 0 if k == 'x' else 1
+    return 1 - j if latfirst(w) else j
+
+
+def wcs_fwd(wcs, w, mode, fx, fy):
+    """FITS (1-based) pixel coordinates as PixCoord means them -> (lon, lat) with wcslib, the axis order handled
+    explicitly: SkyCoord.from_pixel / to_pixel work on wcs.sub([longitude, latitude]), so x runs along the pixel
+    axis of the LONGITUDE world axis; for a latitude-first WCS that is the native SECOND pixel axis and the native
+    call is f(y, x) -> (lat, lon)."""
+    f = wcs.all_pix2world if mode == 'all' else wcs.wcs_pix2world
+    if latfirst(w):
+        lat, lon = f(fy, fx, 1)
+    else:
+        lon, lat = f(fx, fy, 1)
+    return np.atleast_1d(lon), np.atleast_1d(lat)
+
+
+def wcs_inv(wcs, w, mode, lon, lat):
+    g = wcs.all_world2pix if mode == 'all' else wcs.wcs_world2pix
+    lon, lat = np.asarray(lon, float), np.asarray(lat, float)
+    if latfirst(w):
+        p1, p2 = g(lat, lon, 1)
+        return np.atleast_1d(p2), np.atleast_1d(p1)
+    p1, p2 = g(lon, lat, 1)
+    return np.atleast_1d(p1), np.atleast_1d(p2)
+
+
 def mk_angle(a):
     from astropy.coordinates import Angle
     import astropy.units as u
@@ -306,7 +340,10 @@ class Check(PropertyCheck):
             'with small, half-range (squares wrap, sums do not) and full-range values, and float64 at binary exponents +-400..600; rotations about scalar and array centres by angles of '
             'any sign/magnitude in deg/rad/arcmin/arcsec/hourangle (Angle and Quantity) and by exact Pythagorean unit vectors, '
             'twice / by the sum / back; real astropy WCS (TAN/SIN/CAR/ZEA/STG, RA-DEC and GLON-GLAT, rotated PC, both parities, '
-            'scales 1e-5..0.1 deg) x origin {0,1} x mode {all,wcs}; histories: the SAME PixCoord object through 3-8 calls of '
+            'scales 1e-5..0.1 deg) x origin {0,1} x mode {all,wcs}; latitude-first WCSs (DEC,RA / GLAT,GLON); '
+            'iteration protocol: iterating twice, zip(pc, pc), nested loops, a kept iterator and a later list(pc), every interleaving of '
+            'two iterators (length <= 2n+2) and three (length <= n+3) for small coordinates plus random schedules of next() calls; '
+            'histories: the SAME PixCoord object through 3-8 calls of '
             'to_sky with varying (wcs object, origin, mode), from_sky of the last result in another convention, in-place edits of an '
             'element of pc.x / pc.y, separation / rotate twice with the same argument objects - every call compared with the '
             'answer for that call on the current values, receiver and arguments unchanged. Non-trivial = the constructor succeeded on a non-empty coordinate.')
@@ -547,9 +584,13 @@ class Check(PropertyCheck):
         pc = [[math.cos(th), -math.sin(th)], [math.sin(th), math.cos(th)]]
         lat = 0.0 if proj == 'CAR' else rng.choice([0.0, rng.uniform(-80, 80), rng.uniform(-80, 80), 89.0, -89.5])
         lon = rng.choice([0.0, 359.9, rng.uniform(0, 360), rng.uniform(0, 360)])
+        crval = [frac(Fraction(lon)), frac(Fraction(lat))]
+        if rng.random() < 0.3:      # latitude-first celestial WCS (DEC, RA) / (GLAT, GLON)
+            ctype = ctype[::-1]
+            crval = crval[::-1]
         return {'ctype': ctype,
                 'crpix': [frac(Fraction(rng.randint(-400, 400), 4)), frac(Fraction(rng.randint(-400, 400), 4))],
-                'crval': [frac(Fraction(lon)), frac(Fraction(lat))],
+                'crval': crval,
                 'cdelt': [frac(Fraction(sx * scale)), frac(Fraction(sy * scale * rng.choice([1, 1, 0.7])))],
                 'pc': [[frac(Fraction(v)) for v in row] for row in pc]}
 
@@ -659,12 +700,14 @@ class Check(PropertyCheck):
             w = self._wcs(rng)
             p = self._coord_of_shape(rng, s)
             # keep the pixels within ~50 px + crpix so that they stay inside the projection's domain
-            for k, j in (('x', 0), ('y', 1)):
-                c0 = Fraction(w['crpix'][j])
+            for k in ('x', 'y'):
+                c0 = Fraction(w['crpix'][cref(w, k)])
                 dt = p[k]['dtype']
                 p[k]['data'] = [frac((Fraction(v) + c0) if dt == 'float' else Fraction(int(Fraction(v)) + round(c0)))
                                 for v in p[k]['data']]
             cases.append({'kind': 'sky', 'p': p, 'wcs': w, 'origin': rng.choice([0, 1]), 'mode': rng.choice(['all', 'wcs'])})
+        # ---- iteration protocol: overlapping iterators of the same object
+        cases.extend(self._iter_cases(rng, quick))
         # ---- histories: the same object through several calls
         for _ in range(400 if quick else 8000):
             cases.append(self._hist_gen(rng, shapes))
@@ -690,8 +733,8 @@ class Check(PropertyCheck):
         broadcast = rng.random() < 0.3
         p = self._coord_of_shape(rng, s, 'float' if rng.random() < 0.8 else None) if broadcast else \
             {'x': self._arr(rng, s, 'float' if rng.random() < 0.8 else 'int'), 'y': self._arr(rng, s, 'float')}
-        for k, j in (('x', 0), ('y', 1)):
-            c0 = Fraction(w0['crpix'][j])
+        for k in ('x', 'y'):
+            c0 = Fraction(w0['crpix'][cref(w0, k)])
             dt = p[k]['dtype']
             p[k]['data'] = [frac((Fraction(v) + c0) if dt == 'float' else Fraction(int(Fraction(v)) + round(c0))) for v in p[k]['data']]
             if p[k]['shape'] and not broadcast:
@@ -706,7 +749,7 @@ class Check(PropertyCheck):
                 steps.append({'op': 'from_sky', 'wcs': rng.choice([0, 0, 1]), 'origin': rng.choice([0, 1]), 'mode': rng.choice(['all', 'wcs'])})
             elif r < 0.8 and editable:
                 k = rng.choice(['x', 'y'])
-                c0 = Fraction(w0['crpix'][0 if k == 'x' else 1])
+                c0 = Fraction(w0['crpix'][cref(w0, k)])
                 v = Fraction(rng.randint(-400, 400), 8) + c0 if p[k]['dtype'] == 'float' else Fraction(rng.randint(-50, 50) + round(c0))
                 steps.append({'op': 'edit', 'attr': k, 'idx': rng.randrange(prod(s)), 'val': frac(v)})
             elif r < 0.9:
@@ -751,14 +794,14 @@ class Check(PropertyCheck):
         wcs = mk_wcs(w)
         fx = np.array([float(v + (1 - origin)) for v in xs], dtype=float)
         fy = np.array([float(v + (1 - origin)) for v in ys], dtype=float)
-        lon, lat = (wcs.all_pix2world if mode == 'all' else wcs.wcs_pix2world)(fx, fy, 1)
-        return fx, fy, np.atleast_1d(lon), np.atleast_1d(lat)
+        lon, lat = wcs_fwd(wcs, w, mode, fx, fy)
+        return fx, fy, lon, lat
 
     @staticmethod
     def _pix_eval(w, mode, lon, lat):
         wcs = mk_wcs(w)
-        bx, by = (wcs.all_world2pix if mode == 'all' else wcs.wcs_world2pix)(np.asarray(lon, float), np.asarray(lat, float), 1)
-        return [frac(v) for v in np.atleast_1d(bx)], [frac(v) for v in np.atleast_1d(by)]
+        bx, by = wcs_inv(wcs, w, mode, lon, lat)
+        return [frac(v) for v in bx], [frac(v) for v in by]
 
     def _hist_real(self, case):
         from regions import PixCoord
@@ -993,12 +1036,182 @@ class Check(PropertyCheck):
                     bad('history_argument_changed', f"center: x={ro['x'][:4]}", i)
         return V
 
+
+    # ================================================================ iteration protocol cases
+    # Several iterators over the SAME object, advanced in an arbitrary interleaving, must each yield the rows of
+    # (x, y) in order, independently of each other (zip(pc, pc), nested loops, a kept iterator and a later list(pc)).
+    def _iter_gen_case(self, rng, p, scheds):
+        return {'kind': 'iter', 'p': p, 'scheds': scheds}
+
+    def _iter_cases(self, rng, quick):
+        cases = []
+        # exhaustive: every interleaving of two iterators (length 2n+2) and of three (length n+3) for small coordinates
+        for s in ([1], [2], [3], [2, 2], [0], [3, 0]):
+            n = s[0]
+            p = {'x': self._arr(rng, s, 'float'), 'y': self._arr(rng, s, rng.choice(['int', 'float']))}
+            two = [list(t) for t in itertools.product((0, 1), repeat=min(2 * n + 2, 6 if quick else 8))]
+            three = [list(t) for t in itertools.product((0, 1, 2), repeat=min(n + 3, 5))]
+            allsch = two + three
+            for i in range(0, len(allsch), 64):
+                cases.append(self._iter_gen_case(rng, p, allsch[i:i + 64]))
+        for _ in range(250 if quick else 5000):
+            p = self._coord(rng, None)
+            scheds = [[rng.randint(0, 2) for _ in range(rng.randint(1, 10))] for _ in range(4)]
+            cases.append(self._iter_gen_case(rng, p, scheds))
+        return cases
+
+    def _iter_real(self, case):
+        p = attempt(lambda: mk_coord(case['p']))
+        if is_err(p):
+            return {'ctor': p}
+        out = {}
+        if p.isscalar:
+            out['scalar_list'] = attempt(lambda: [canon_pc(q) for q in p])
+            out['scalar_next'] = attempt(lambda: canon_pc(next(iter(p))))
+            return out
+        cl = lambda l: [canon_pc(q) for q in l]
+        out['twice'] = attempt(lambda: [cl(list(p)), cl(list(p))])
+        out['zip'] = attempt(lambda: [[canon_pc(a), canon_pc(b)] for a, b in zip(p, p)])
+        if len(p) <= 4:
+            out['nested'] = attempt(lambda: [[canon_pc(a), canon_pc(b)] for a in p for b in p])
+        def kept():
+            it = iter(p)
+            first = [canon_pc(next(it))] if len(p) else []
+            allp = cl(list(p))
+            rest = cl(list(it))
+            return {'first': first, 'all': allp, 'rest': rest}
+        out['kept'] = attempt(kept)
+        out['ident'] = attempt(lambda: [iter(p) is p, iter(p) is iter(p)])
+        def run(sched):
+            its = {}
+            res = []
+            for k in sched:
+                if k not in its:
+                    its[k] = iter(p)
+                try:
+                    res.append(canon_pc(next(its[k])))
+                except StopIteration:
+                    res.append('stop')
+            return res
+        out['scheds'] = [attempt(lambda sch=sch: run(sch)) for sch in case['scheds']]
+        return out
+
+    @staticmethod
+    def _iter_expected(items, sched):
+        cur = {}
+        res = []
+        for k in sched:
+            i = cur.get(k, 0)
+            if i < len(items):
+                res.append(items[i])
+                cur[k] = i + 1
+            else:
+                res.append('stop')
+        return res
+
+    def _iter_compare(self, real, items, scheds, same):
+        """compare the recorded protocol results with what independent cursors over `items` give; -> list of (what, detail)."""
+        bad = []
+        n = len(items)
+        def seq(name, got, exp):
+            if is_err(got):
+                bad.append((name + '_raised', str(got)))
+                return
+            if len(got) != len(exp):
+                bad.append((name + '_count', f'{len(got)} items, expected {len(exp)}'))
+                return
+            for j, (g, e) in enumerate(zip(got, exp)):
+                if (g == 'stop') != (e == 'stop') or (g != 'stop' and not same(g, e)):
+                    bad.append((name + '_item', f'position {j}: got {g if g == "stop" else (g["x"][:4], g["y"][:4])} '
+                                f'expected {e if e == "stop" else "row " + str(items.index(e))}'))
+                    return
+        tw = real['twice']
+        if is_err(tw):
+            bad.append(('iterate_twice_raised', str(tw)))
+        else:
+            seq('iterate_first_pass', tw[0], items)
+            seq('iterate_second_pass', tw[1], items)
+        z = real['zip']
+        if is_err(z):
+            bad.append(('zip_raised', str(z)))
+        else:
+            seq('zip_self_left', [a for a, b in z], items)
+            seq('zip_self_right', [b for a, b in z], items)
+        if 'nested' in real:
+            ne = real['nested']
+            if is_err(ne):
+                bad.append(('nested_raised', str(ne)))
+            else:
+                seq('nested_outer', [a for a, b in ne], [items[i] for i in range(n) for _ in range(n)])
+                seq('nested_inner', [b for a, b in ne], [items[j] for _ in range(n) for j in range(n)])
+        kp = real['kept']
+        if is_err(kp):
+            bad.append(('kept_iterator_raised', str(kp)))
+        else:
+            seq('kept_iterator_first', kp['first'], items[:1])
+            seq('kept_iterator_list', kp['all'], items)
+            seq('kept_iterator_rest', kp['rest'], items[1:])
+        if real['ident'] != [False, False]:
+            bad.append(('iterator_not_independent_object', f'iter(pc) is pc: {real["ident"][0] if not is_err(real["ident"]) else real["ident"]}, '
+                        f'iter(pc) is iter(pc): {real["ident"][1] if not is_err(real["ident"]) else ""}'))
+        for sch, got in zip(scheds, real['scheds']):
+            before = len(bad)
+            seq('interleaved', got, self._iter_expected(items, sch))
+            if len(bad) > before:
+                bad[-1] = (bad[-1][0], bad[-1][1] + f' [schedule of next() calls on iterators {sch}]')
+                break
+        return bad
+
+    def _iter_requests(self, case):
+        return [{'op': 'pc.iter', 'p': self._jc(case['p'])}]
+
+    def _iter_model(self, case, replies):
+        r = replies[0]
+        if r.get('at') == 'ctor':
+            return {'ctor': {'err': r['err']}}
+        return {'iter': {'err': r['err']} if 'err' in r else [dec_pc(j) for j in r['ok']]}
+
+    def _iter_equal(self, case, real, model):
+        if 'ctor' in real or 'ctor' in model:
+            return 'ctor' in real and 'ctor' in model and is_err(real['ctor']) and real['ctor']['err'] == model['ctor']['err']
+        if 'scalar_list' in real:
+            return is_err(model['iter']) and all(is_err(real[k]) and real[k]['err'] == model['iter']['err']
+                                                 for k in ('scalar_list', 'scalar_next'))
+        if is_err(model['iter']):
+            return False
+        return not self._iter_compare(real, model['iter'], case['scheds'], same_pc)
+
+    def _iter_oracle(self, case, real):
+        V = []
+        c = case['p']
+        S = py_bshape(c['x']['shape'], c['y']['shape'])
+        if 'ctor' in real:
+            if S is not None or real['ctor'].get('err') != 'ValueError':
+                V.append({'kind': 'ctor_raised', 'detail': f'{real["ctor"]} :: iter'})
+            return V
+        if S == []:
+            for k in ('scalar_list', 'scalar_next'):
+                if not is_err(real[k]) or real[k]['err'] != 'TypeError':
+                    V.append({'kind': 'iter_of_scalar', 'detail': f'{k}: {real[k]} :: iter'})
+            return V
+        st = self._hist_state0(case)
+        m = prod(S[1:])
+        rows = [{'shape': S[1:], 'x': st['x'][i * m:(i + 1) * m], 'y': st['y'][i * m:(i + 1) * m]} for i in range(S[0])]
+        def same(g, e):
+            return (not is_err(g) and g['shape'] == e['shape'] and 'shape_y' not in g and g['scalar'] == (e['shape'] == [])
+                    and [num(v) for v in g['x']] == e['x'] and [num(v) for v in g['y']] == e['y'])
+        for what, detail in self._iter_compare(real, rows, case['scheds'], same):
+            V.append({'kind': what, 'detail': f'{detail} :: iter shape={S}'})
+        return V
+
     # ================================================================ real code
     def real(self, case):
         from regions import PixCoord
         kind = case['kind']
         if kind == 'history':
             return self._hist_real(case)
+        if kind == 'iter':
+            return self._iter_real(case)
         out = {}
         if kind == 'ctor':
             x, y = mk_arr(case['x']), mk_arr(case['y'])
@@ -1154,18 +1367,16 @@ class Check(PropertyCheck):
         sh = 1 - case['origin']
         fx = np.array([float(v + sh) for v in xs], dtype=float)
         fy = np.array([float(v + sh) for v in ys], dtype=float)
-        if case['mode'] == 'all':
-            lon, lat = wcs.all_pix2world(fx, fy, 1)
-            bx, by = wcs.all_world2pix(lon, lat, 1)
-        else:
-            lon, lat = wcs.wcs_pix2world(fx, fy, 1)
-            bx, by = wcs.wcs_world2pix(lon, lat, 1)
+        lon, lat = wcs_fwd(wcs, case['wcs'], case['mode'], fx, fy)
+        bx, by = wcs_inv(wcs, case['wcs'], case['mode'], lon, lat)
         return s, [frac(v) for v in fx], [frac(v) for v in fy], list(lon), list(lat), [frac(v) for v in bx], [frac(v) for v in by]
 
     def requests(self, case):
         k = case['kind']
         if k == 'history':
             return self._hist_requests(case)
+        if k == 'iter':
+            return self._iter_requests(case)
         if k == 'ctor':
             c = {'x': self._jarr(case['x']), 'y': self._jarr(case['y'])}
             return [dict(op='pc.ctor', **c)] + [{'op': op, 'p': c} for op in ('pc.len', 'pc.iter', 'pc.copy', 'pc.xy')]
@@ -1212,6 +1423,8 @@ class Check(PropertyCheck):
         k = case['kind']
         if k == 'history':
             return self._hist_model(case, replies)
+        if k == 'iter':
+            return self._iter_model(case, replies)
         if k == 'ctor':
             c = dec_reply(replies[0])
             if is_err(c):
@@ -1292,6 +1505,8 @@ class Check(PropertyCheck):
             return False
         if case['kind'] == 'history':
             return self._hist_equal(case, real, model)
+        if case['kind'] == 'iter':
+            return self._iter_equal(case, real, model)
         if 'ctor' in real and is_err(real['ctor']):
             return 'ctor' in model and is_err(model['ctor']) and model['ctor']['err'] == real['ctor']['err']
         if 'ctor' in model and is_err(model['ctor']):
@@ -1378,6 +1593,8 @@ class Check(PropertyCheck):
         k = case['kind']
         if k == 'history':
             return self._hist_oracle(case, real)
+        if k == 'iter':
+            return self._iter_oracle(case, real)
 
         def bad(kind, detail, **kw):
             d = {'kind': kind, 'detail': f'{detail} :: {k}'}
@@ -1603,6 +1820,15 @@ class Check(PropertyCheck):
             st = real['start']
             if real['sky'][0] != st['shape'] or real['sky'][3] != st['scalar']:
                 bad('to_sky_shape', f"{real['sky'][0]} scalar={real['sky'][3]} for {st['shape']}")
+            else:
+                # the sky position itself: wcslib on the FITS-convention pixels, axis order handled explicitly
+                _, _, elon, elat = self._sky_eval(case['wcs'], case['mode'], case['origin'], fr(st['x']), fr(st['y']))
+                for a, b_, c_, d_ in zip(real['sky'][1], elon, real['sky'][2], elat):
+                    dl = abs(float(num(a)) - float(b_)) % 360.0
+                    if not (min(dl, 360.0 - dl) <= 1e-9 and abs(float(num(c_)) - float(d_)) <= 1e-9):
+                        bad('to_sky_position', f'({float(num(a))}, {float(num(c_))}) deg, expected ({float(b_)}, {float(d_)}) deg for '
+                            f'ctype={case["wcs"]["ctype"]} origin={case["origin"]} mode={case["mode"]}')
+                        break
             b = real['back']
             if is_err(b):
                 bad('from_sky_raised', b)
@@ -1623,6 +1849,9 @@ class Check(PropertyCheck):
 
     def bucket(self, case, real):
         k = case['kind']
+        if k == 'iter':
+            s_ = py_bshape(case['p']['x']['shape'], case['p']['y']['shape'])
+            return f"iter/{'nobroadcast' if s_ is None else ('scalar' if s_ == [] else 'len' + str(min(s_[0], 3)) + '/' + str(len(s_)) + 'd')}"
         if k == 'history':
             ops = [st['op'] for st in case['steps']]
             var = len({(st.get('wcs'), st['origin'], st['mode']) for st in case['steps'] if st['op'] == 'to_sky'})
